@@ -133,13 +133,14 @@ def first_diff(a: str, b: str) -> tuple[str, str]:
     return a[-200:], b[-200:]
 
 
-def limit_memory():
+def limit_memory(tier="quick"):
     """the implementation under test runs inside this process and its Python children: a change to /repo that builds a table per tick or
     per beat must end as a MemoryError on the input that provokes it (an undocumented error where an answer is promised), not as a machine
-    without memory. Address space of this process and its children is capped (VERIF_MEM_GB, default 4; the checks themselves stay below 0.2 GB); the Lean tools are exempted
+    without memory. Address space of this process and its children is capped (VERIF_MEM_GB; default 4 in the quick tier, where the checks themselves stay below 0.2 GB, and 32 in the thorough tier); the Lean tools are exempted
     (`unlimit_memory`), they map their libraries into a much larger address space."""
     import resource
-    gb = float(os.environ.get("VERIF_MEM_GB", "4") or 4)
+    # (the thorough tier of C04 holds 24 million cases: 7.6 GB resident on the unchanged tree)
+    gb = float(os.environ.get("VERIF_MEM_GB") or (4 if tier == "quick" else 32))
     soft, hard = resource.getrlimit(resource.RLIMIT_AS)
     lim = int(gb * 2**30)
     if hard != resource.RLIM_INFINITY:
